@@ -320,6 +320,10 @@ class _ExprCanon(ast.NodeTransformer):
 
     def visit_Compare(self, node: ast.Compare):
         self.generic_visit(node)
+        # `N is N` / `N is not N` for one plain name  ->  True / False  (a sentinel threaded through an inlined helper)
+        if len(node.ops) == 1 and isinstance(node.ops[0], (ast.Is, ast.IsNot)) and isinstance(node.left, ast.Name) \
+                and isinstance(node.comparators[0], ast.Name) and node.left.id == node.comparators[0].id:
+            return _loc(ast.Constant(value=isinstance(node.ops[0], ast.Is)), node)
         # constant on the left (`None is x`, `0 == n`)  ->  on the right
         if len(node.ops) == 1 and isinstance(node.left, ast.Constant) and not isinstance(node.comparators[0], ast.Constant) \
                 and isinstance(node.ops[0], (ast.Is, ast.IsNot, ast.Eq, ast.NotEq)):
@@ -553,6 +557,11 @@ class BlockCanon:
             last = i == len(stmts) - 1
             st = self.stmt(st, tail if last else None)
             stmts[i] = st
+            if enabled("C2") and isinstance(st, ast.If) and isinstance(st.test, ast.Constant) and st.test.value is True and not st.orelse:
+                # `if True: A; B` (a folded test): the statements themselves
+                stmts[i:i + 1] = st.body
+                self.changed = True
+                continue
             # ---- walrus in leading position of an `if` test / assignment / return  ->  plain assignment first (C5)
             if enabled("C5") and isinstance(st, (ast.If, ast.Assign, ast.Return, ast.Expr)):
                 holder = "test" if isinstance(st, ast.If) else "value"
@@ -1817,6 +1826,8 @@ class HelperInliner:
             if len(owners) != 1:
                 return None
             c, d = owners[0]
+            if not d.name.startswith("_") and not (isinstance(recv, ast.Name) and recv.id in ("self", "cls")):
+                return None  # a public name (`get`, `copy`, ...) on some other receiver may be anything
             decs = {(x.id if isinstance(x, ast.Name) else getattr(x, "attr", "")) for x in d.decorator_list}
             if "property" in decs:
                 return None
@@ -2234,11 +2245,15 @@ class TailSinker:
         for blk in (st.body, st.orelse):
             if not blk:
                 return None  # no else: a path without a choice
-            if len(blk) == 1 and isinstance(blk[0], ast.If):
-                sub = TailSinker._leaves(blk[0])
+            if isinstance(blk[-1], ast.If) and (len(blk) == 1 or blk[-1].orelse):
+                # (a block that ends in an if/else: its leaves are that If's leaves; the statements before it stay)
+                sub = TailSinker._leaves(blk[-1])
                 if sub is None:
-                    return None
-                out.extend(sub)
+                    if len(blk) == 1:
+                        return None
+                    out.append(blk)
+                else:
+                    out.extend(sub)
             else:
                 out.append(blk)
         return out
@@ -2258,6 +2273,14 @@ class TailSinker:
             if not isinstance(st, ast.If) or i + 1 >= len(block):
                 continue
             S = block[i + 1]
+            consumed = 1
+            if isinstance(S, ast.If) and not S.orelse and terminates(S.body) and 0 < len(block) - (i + 2) <= 3 \
+                    and not any(isinstance(_x, FuncNode + (ast.ClassDef,)) for _s in block[i + 2:] for _x in ast.walk(_s)):
+                # a guard on what the branches chose plus a short remainder (`if res is MISSING: raise ...; return res`):
+                # read as if/else so that it can be sunk as one dispatch
+                S = ast.If(test=S.test, body=S.body, orelse=list(block[i + 2:]))
+                ast.copy_location(S, block[i + 1])
+                consumed = len(block) - (i + 1)
             if isinstance(S, ast.If):
                 # a following dispatch on what the branches chose (`if keep: ... else: ...`): small bodies only
                 if sum(1 for _x in ast.walk(S) if isinstance(_x, ast.stmt)) > 8 or any(isinstance(_x, (ast.For, ast.While, ast.Try, ast.With) + FuncNode) for _x in ast.walk(S)):
@@ -2274,7 +2297,7 @@ class TailSinker:
             if any(isinstance(x, (ast.Lambda, ast.NamedExpr)) for x in ast.walk(S)):
                 continue
             leaves = self._leaves(st)
-            if not leaves or len(leaves) > 4:
+            if not leaves or len(leaves) > (6 if sum(1 for _x in ast.walk(S) if isinstance(_x, ast.stmt)) <= 4 else 4):
                 continue
             live = [lf for lf in leaves if not terminates(lf)]
             if len(live) < 2:
@@ -2298,6 +2321,12 @@ class TailSinker:
                 continue
             inside = {id(x) for x in ast.walk(st)} | {id(x) for x in ast.walk(S)}
             params = _params(self.fn)
+            if consumed > 1:
+                # (the whole If S is copied into the leaves: all its reads and writes of V move with it)
+                reads_S = {x.id for x in ast.walk(S) if isinstance(x, ast.Name) and isinstance(x.ctx, ast.Load)}
+                V = set.intersection(*[set(d) for d in per]) & reads_S
+                if not V or V & writes_S:
+                    continue
             ok = not (V & params)
             for x in ast.walk(self.fn):
                 if isinstance(x, ast.Name) and x.id in V and id(x) not in inside:
@@ -2346,7 +2375,7 @@ class TailSinker:
                     Sc = _Sub().visit(Sc)
                     drop.append(a_)
                 lf[:] = [x for x in lf if not any(x is d_ for d_ in drop)] + [Sc]
-            del block[i + 1]
+            del block[i + 1:i + 1 + consumed]
             return True
         return False
 
@@ -2718,11 +2747,124 @@ def _positional_private_calls(modules: Dict[str, ast.Module]) -> None:
                 c.keywords = [k for k in c.keywords if k.arg not in moved]
 
 
-def canonicalise(modules: Dict[str, ast.Module], known_funcs: Optional[Set[str]] = None) -> Dict[str, int]:
+def new_option_params(modules: Dict[str, ast.Module]) -> List[Tuple[str, str, str]]:
+    """(module, qualname, parameter) for every parameter of a function of the reference tree that the reference's
+    signature does not have - a *new option*."""
+    from .known_funcs import KNOWN_PARAMS
+
+    out = []
+    for mod, tree in modules.items():
+        for fn, cls, q in _all_functions(tree):
+            ref = KNOWN_PARAMS.get(f"{mod}:{q}")
+            if ref is None:
+                continue
+            a = fn.args
+            for x in a.posonlyargs + a.args + a.kwonlyargs:
+                if x.arg not in ref:
+                    out.append((mod, q, x.arg))
+    return out
+
+
+def _const_like(d: Optional[ast.AST]) -> bool:
+    """A default that denotes one immutable value everywhere: a literal constant, or a dotted NAME.MEMBER / NAME_IN_CAPS
+    (enum member, module constant)."""
+    if isinstance(d, ast.Constant):
+        return True
+    if isinstance(d, ast.Attribute) and isinstance(d.value, ast.Name) and d.attr.upper() == d.attr:
+        return True
+    return isinstance(d, ast.Name) and d.id.upper() == d.id and len(d.id) > 1
+
+
+def project_new_options(modules: Dict[str, ast.Module]) -> int:
+    """P0 (only for the *projected* model that the pin rules read): the behaviour for the calls the reference accepts.
+    In a function of the reference tree, a new parameter with a constant default that the body never rebinds is replaced
+    by that default (the tests on it fold in C1/C2), and a keyword argument that thereby passes a callee's own default
+    explicitly is dropped.  What the package does when a new option is *used* is not stated by any property; the
+    structural rules still read the unprojected code."""
+    by_name: Dict[str, List[ast.AST]] = {}
+    for mod, tree in modules.items():
+        for fn, cls, q in _all_functions(tree):
+            by_name.setdefault(fn.name, []).append(fn)
+
+    def default_of(fn, name: str) -> Optional[ast.AST]:
+        a = fn.args
+        pos = a.posonlyargs + a.args
+        for x, d in list(zip(pos[len(pos) - len(a.defaults):], a.defaults)) + list(zip(a.kwonlyargs, a.kw_defaults)):
+            if x.arg == name:
+                return d
+        return None
+
+    count = 0
+    new = new_option_params(modules)
+    trees = {mod: {q: fn for fn, cls, q in _all_functions(tree)} for mod, tree in modules.items()}
+    marked: Set[int] = set()
+    for mod, q, pname in new:
+        fn = trees[mod][q]
+        d = default_of(fn, pname)
+        if not _const_like(d):
+            continue
+        if any(isinstance(x, ast.Name) and x.id == pname and isinstance(x.ctx, (ast.Store, ast.Del)) for st in fn.body for x in ast.walk(st)):
+            continue
+        if any(isinstance(x, (ast.Global, ast.Nonlocal)) and pname in x.names for st in fn.body for x in ast.walk(st)):
+            continue
+        if any(isinstance(x, ast.arg) and x.arg == pname for st in fn.body for x in ast.walk(st)):
+            continue  # shadowed in a nested function / lambda
+
+        class _Sub(ast.NodeTransformer):
+            def visit_Name(self, n: ast.Name):
+                if n.id == pname and isinstance(n.ctx, ast.Load):
+                    c = _loc(copy.deepcopy(d), n)
+                    marked.add(id(c))
+                    return c
+                return n
+
+        fn.body = [_Sub().visit(st) for st in fn.body]
+        count += 1
+    if marked:
+        for tree in modules.values():
+            for c in ast.walk(tree):
+                if not isinstance(c, ast.Call) or not (c.keywords or c.args):
+                    continue
+                nm = c.func.attr if isinstance(c.func, ast.Attribute) else c.func.id if isinstance(c.func, ast.Name) else None
+                cands = by_name.get(nm or "", [])
+                if not cands:
+                    continue
+                keep = []
+                for k in c.keywords:
+                    if k.arg is not None and id(k.value) in marked:
+                        ds = [default_of(g, k.arg) for g in cands]
+                        if all(d_ is not None and ast.dump(d_) == ast.dump(k.value) for d_ in ds):
+                            continue
+                    keep.append(k)
+                c.keywords = keep
+                # a trailing positional argument that passes the callee's own default
+                while c.args and id(c.args[-1]) in marked and not c.keywords:
+                    pos_i = len(c.args) - 1
+                    ok_ = True
+                    for g in cands:
+                        ps = [x.arg for x in g.args.posonlyargs + g.args.args]
+                        if ps and ps[0] in ("self", "cls") and isinstance(c.func, ast.Attribute):
+                            ps = ps[1:]
+                        if pos_i >= len(ps):
+                            ok_ = False
+                            break
+                        d_ = default_of(g, ps[pos_i])
+                        if d_ is None or ast.dump(d_) != ast.dump(c.args[-1]):
+                            ok_ = False
+                            break
+                    if not ok_:
+                        break
+                    c.args = c.args[:-1]
+    return count
+
+
+def canonicalise(modules: Dict[str, ast.Module], known_funcs: Optional[Set[str]] = None, project: bool = False) -> Dict[str, int]:
     """Rewrite all function bodies of the package in place.  Returns counters."""
     stats = {"functions": 0, "changed": 0, "inlined_helpers": 0}
     if os.environ.get("SA_CANON", "all") in ("0", "none", "off"):
         return stats
+    if project:
+        stats["projected_options"] = project_new_options(modules)
     if enabled("C11") and known_funcs is not None:
         stats["inlined_constants"] = _inline_new_constants(modules, known_funcs)
         _positional_private_calls(modules)
@@ -2737,7 +2879,9 @@ def canonicalise(modules: Dict[str, ast.Module], known_funcs: Optional[Set[str]]
         new_ids: Set[int] = set()
         for mod, lst in funcs.items():
             for fn, cls, q in lst:
-                if f"{mod}:{q}" not in known_funcs and fn.name.startswith("_") and not (fn.name.startswith("__") and fn.name.endswith("__")):
+                if f"{mod}:{q}" not in known_funcs and not (fn.name.startswith("__") and fn.name.endswith("__")) and (fn.name.startswith("_") or cls is not None):
+                    # a new private helper - or a new public method that a function of the reference tree now delegates
+                    # to (it stays in the model as a function of its own; only private helpers are dropped when dead)
                     new_ids.add(id(fn))
                 elif f"{mod}:{q}" not in known_funcs and "." in q and not fn.name.startswith("__"):
                     # new nested closures may have any name
